@@ -207,6 +207,7 @@ func cmdRun(args []string) int {
 	trace := fs.Bool("trace", false, "trace calls")
 	noEvidence := fs.Bool("no-evidence", false, "do not write the evidence file")
 	cpuprof := fs.String("cpuprofile", "", "write a CPU profile")
+	concModel := fs.String("concrete-model", "", "debug: run the selected harness once, concretely, on this JSON model (or replay file) inside the engine")
 	fs.Parse(args)
 	if *cpuprof != "" {
 		f, _ := os.Create(*cpuprof)
@@ -317,6 +318,25 @@ func cmdRun(args []string) int {
 				return 2
 			}
 			ranAny = true
+			if *concModel != "" {
+				var m map[string]uint64
+				b := []byte(*concModel)
+				if fb, err := os.ReadFile(*concModel); err == nil {
+					b = fb
+				}
+				var wrap struct {
+					Model map[string]uint64 `json:"model"`
+				}
+				if json.Unmarshal(b, &wrap) == nil && wrap.Model != nil {
+					m = wrap.Model
+				} else if err := json.Unmarshal(b, &m); err != nil {
+					fmt.Fprintln(os.Stderr, "bad model:", err)
+					return 2
+				}
+				pr := interp.RunPath(l.shared, fn, nil, nil, nil, cfg, m)
+				fmt.Printf("concrete engine run of %s: status=%s msg=%s\nevents=%v\nviolations=%v\n", fname, pr.Status, pr.Msg, pr.Events, pr.Violations)
+				return 0
+			}
 			c := cfg
 			c.MaxPaths = *maxPaths
 			if *budget > 0 {
